@@ -267,13 +267,22 @@ def strategy(n):
                    C("move", x=0.5, F=1200.0)]
         + ([C("set_distance_mode", "relative")] if t[3] else [])
         + [dict(C(t[0], x=t[1], F=t[2]), _poison="late:hook_makes_S_invalid")])
+    # limits that exclude 0 and a move whose F (or S) is exactly 0: rejected, and
+    # nothing of the call may have been stored before the rejection
+    zero_fs = st.tuples(st.sampled_from(["move", "rapid", "move_absolute", "probe"]), small,
+                        st.sampled_from(["F", "S"]), st.booleans()).map(
+        lambda t: [C("set_bounds", "feed-rate", 10, 5000), C("set_bounds", "tool-power", 10, 1000),
+                   C("move", x=0.25, F=600.0, S=50.0)]
+        + ([C("set_distance_mode", "relative")] if t[3] else [])
+        + [dict(C("probe", "towards", x=t[1], **{t[2]: 0.0}) if t[0] == "probe"
+                else C(t[0], x=t[1], **{t[2]: 0.0}), _poison="late:zero_F_or_S_against_limits")])
     one = item.map(lambda c: [c])
     return st.fixed_dictionaries({
         "setup": setup_strategy(),
         # (one_of() flattens nested alternatives and picks uniformly among all
         # leaves: an explicit draw gives the pair a real weight of 1 in 8)
-        "calls": st.lists(st.integers(0, 8).flatmap(
-            lambda k: parked if k == 0 else hooked if k == 1 else one),
+        "calls": st.lists(st.integers(0, 9).flatmap(
+            lambda k: parked if k == 0 else hooked if k == 1 else zero_fs if k == 2 else one),
                           min_size=1, max_size=n).map(
             lambda ll: [c for l in ll for c in l])})
 
